@@ -152,7 +152,18 @@ def verus_part(prop, tier, seed, tmp):
             relevant_fns.add(vn)
             obl += n_rel
     n_failed = len([f for f in out.failures if prop in f['tags']])
-    dis = max(0, obl - n_failed)
+    # obligations of functions Verus did not finish (resource limit, solver gave up) are NOT discharged
+    unfinished = 0
+    for vn in relevant_fns:
+        st = None
+        for full, d in out.functions.items():
+            if full == vn or full.endswith('::' + vn):
+                st = d
+        if st is not None and not st.get('success', False):
+            n_here = len([o for o in out.obligations.get(vn, []) if prop in o['tags']])
+            n_reported = len([f for f in out.failures if prop in f['tags'] and (f['fn'] or '').endswith(vn.split('::')[-1])])
+            unfinished += max(0, n_here - n_reported) if any(g['klass'] == 'undecided' and (g['fn'] or '').endswith(vn.split('::')[-1]) for g in out.failures) else 0
+    dis = max(0, obl - n_failed - unfinished)
     for vn in sorted(relevant_fns):
         key = vname_to_key.get(vn, vn)
         meta = out.gen.functions.get(key, {})
@@ -172,7 +183,7 @@ def verus_part(prop, tier, seed, tmp):
               undecided=[dict(function=f['fn'], obligation=f['name'], reason=f['klass'] + ': ' + f['msg']) for f in undec])
     vs = []
     for f in confirmed:
-        vs.append(dict(property=prop, leg='verus', function=f['fn'] or '?', obligation=f['name'] or f['msg'], n='all',
+        vs.append(dict(property=prop, leg='verus', function=f['fn'] or '?', obligation=f['name'] or f['msg'], n='all', verus_msg=f['msg'],
                        detail='%s (%s) in %s%s' % (f['msg'], f['name'], f['fn'], (' at /repo/src line ~%s' % f['src_line']) if f['src_line'] else ''),
                        verifier_output=f['rendered']))
     status = 'ok'
@@ -402,14 +413,41 @@ def write_replay(v, hit, extra=None):
     return path
 
 
+# which harness-encoded contracts exercise a function of the Verus leg (beyond the obvious c_<fn>)
+COVERS = {
+    'nth_front': ['c_get'], 'nth_back': ['c_get'], 'front': ['c_get'], 'back': ['c_get'], 'len': ['c_get'], 'capacity': ['c_get'],
+    'is_empty': ['c_push_back', 'c_clear'], 'is_full': ['c_push_back', 'c_fill'],
+    'nth_front_mut': ['c_get_mut'], 'nth_back_mut': ['c_get_mut'], 'front_mut': ['c_get_mut'], 'back_mut': ['c_get_mut'],
+    'as_mut_slices': ['c_as_slices'], 'fill_spare_with': ['c_fill_with'], 'fill_with': ['c_fill_with'], 'fill': ['c_fill'],
+    'slices_uninit_mut': ['c_extend_from_slice'], 'default': ['c_new'], 'new': ['c_new'],
+    'add_mod': ['c_get', 'c_push_back', 'c_remove', 'c_zst'], 'sub_mod': ['c_push_front', 'c_zst'],
+    'inc_start': ['c_push_back', 'c_pop_front'], 'dec_start': ['c_push_front'], 'inc_size': ['c_push_back'], 'dec_size': ['c_pop_back'],
+    'front_maybe_uninit': ['c_pop_front', 'c_get'], 'front_maybe_uninit_mut': ['c_push_back', 'c_get_mut'], 'back_maybe_uninit': ['c_pop_back', 'c_get'],
+    'back_maybe_uninit_mut': ['c_push_back', 'c_push_front', 'c_get_mut'], 'get_maybe_uninit': ['c_get'], 'get_maybe_uninit_mut': ['c_get_mut'],
+    'slice_take_first': ['c_iter_script', 'c_iter_views'], 'slice_take_last': ['c_iter_script'],
+    'empty': ['c_iter_script'], 'next': ['c_iter_script', 'c_iter_views', 'c_into_iter'], 'next_back': ['c_iter_script', 'c_into_iter'],
+    'size_hint': ['c_iter_script', 'c_into_iter'], 'clone': ['c_iter_script'], 'available_len': ['c_drain'], 'add': ['c_drain'],
+}
+
+
 def related_harnesses(prop, fnkey):
-    """Kani harnesses exercising the function a Verus obligation belongs to (for the replay search)"""
+    """harness-encoded contracts exercising the function a Verus obligation belongs to (second opinion / replay search)"""
     name = (fnkey or '').split('::')[-1]
+    wanted = set(['c_' + name] + COVERS.get(name, []))
+    if fnkey and ('Iter::' in fnkey or 'for Iter' in fnkey) and name in ('new', 'len'):
+        wanted.update(['c_iter_script', 'c_iter_views'])
+    if fnkey and 'IntoIter' in fnkey:
+        wanted.add('c_into_iter')
     out = []
     for e in HARNESSES:
-        if e['fn'] in ('c_' + name,) or name in e.get('covers', []):
+        if e.get('native_only') or e.get('kani_only') or e.get('features') or e.get('name', e['fn']) != e['fn']:
+            continue
+        if e['fn'] in wanted:
             out.append(e)
     return out
+
+
+ARITH_MSG = re.compile(r'arithmetic underflow/overflow|division by zero|possible overflow')
 
 
 def do_replay(path):
@@ -520,6 +558,7 @@ def check(prop, tier, seed, legs=('verus', 'kani'), keep=False, only=None):
         lines = []
         searched_fns = {}
         search_budget_s = [600.0]
+        demoted = []
         for v, _ in new_v:
             hit = None
             cands = []
@@ -551,18 +590,34 @@ def check(prop, tier, seed, legs=('verus', 'kani'), keep=False, only=None):
                     cands = []
                 searched_fns[v['function']] = searched_fns.get(v['function'], 0) + 1
             t_search = time.time()
+            all_exhausted = bool(cands)
             if cands and os.path.exists(scratch):
                 key = (scratch, feats)
                 if key not in exe_cache:
                     exe_cache[key] = build_native_runner(scratch, feats)
                 exe, err = exe_cache[key]
+                if not exe:
+                    all_exhausted = False
                 if exe:
                     for hname, needle in cands:
                         r = replay_search(exe, hname, needle)
+                        if r.get('status') != 'exhausted':
+                            all_exhausted = False
                         if r.get('status') == 'hit':
                             hit = dict(harness=hname, choices=r.get('choices', ''), inputs=r.get('inputs', ''), message=r.get('message', ''), runs=r.get('runs'))
                             break
             search_budget_s[0] -= (time.time() - t_search)
+            if (v['leg'] == 'verus' and not hit and all_exhausted and not ARITH_MSG.search(v.get('verus_msg', ''))
+                    and not any(w['leg'] != 'verus' and w['property'] == prop for w, _ in new_v)):
+                # Triage of an undischarged FUNCTIONAL obligation (tool limit vs. real defect): the same contract, as
+                # harness-encoded for Kani, was just enumerated exhaustively on the real code for every layout and
+                # small argument of capacities 0..5 without a failing input, no other leg reports this property, and the
+                # obligation is not arithmetic (overflow / division freedom for huge capacities is what only Verus can
+                # decide, so those always stand).  This is a lost proof: undecided, not a violation.
+                demoted.append(v)
+                log('note: verus obligation `%s` in %s is no longer discharged (%s), but the exhaustive native enumeration of the same contract (%s) finds no failing input: '
+                    'treated as a lost proof (undecided), not as a violation' % (v['obligation'], v['function'], v.get('verus_msg', ''), ', '.join(c[0] for c in cands[:6])))
+                continue
             path = write_replay(v, hit)
             suffix = '' if hit else ' no-failing-input-found'
             lines.append('VIOLATION property=%s replay=%s%s' % (prop, path, suffix))
@@ -578,6 +633,11 @@ def check(prop, tier, seed, legs=('verus', 'kani'), keep=False, only=None):
         for part in (vp, kp, np_):
             if part:
                 statuses.append(part['status'])
+        new_v = [(v, k) for v, k in new_v if v not in demoted]
+        if demoted and vp:
+            vp['status'] = 'partial'
+            vp['reason'] = (vp.get('reason') or '') + '; lost proofs: ' + ', '.join('%s/%s' % (v['function'], v['obligation']) for v in demoted)
+            vp['evidence'].setdefault('undecided', []).extend(dict(function=v['function'], obligation=v['obligation'], reason='lost proof: ' + v.get('verus_msg', '')) for v in demoted)
         if new_v:
             rc = 1
         elif not statuses or all(s == 'undecided' for s in statuses):
@@ -608,6 +668,9 @@ def write_evidence(prop, tier, seed, spec, vp, kp, new_v, known_v, fixed, wall, 
     verus_ok = bool(vp and vp['status'] in ('ok', 'partial') and vev.get('obligations'))
     if level == 'proof' and not verus_ok:
         # the unbounded leg did not decide anything in this run: do not claim a proof
+        level = 'other'
+    if level == 'proof' and vev['discharged'] != vev['obligations']:
+        # some obligation was not discharged in this run (failed, or the solver did not finish): no proof is claimed for this run
         level = 'other'
     if level == 'proof':
         cov['obligations'] = vev['obligations']
